@@ -45,6 +45,19 @@ SHAPES = [
     '[+10]-W',
     '<13C><15N>{Glycan:Fuc}[Formula:H2O]?SAMPLER/4[+Na+,+3H+]',
 ]
+# the same kind of object, but NOT freshly parsed: residue-modification dictionary and interval list in reverse
+# positional order (what reverse()/shuffle()/programmatic add_* leave behind). Shape index 2 in the quick tier.
+SCRAMBLED = 'SCRAMBLED:{+100.5}[Acetyl]-PE(PT)[1.5]K[Phospho](ID)[Oxidation]E[2]K-[Amidated]/2'
+SHAPES.insert(2, SCRAMBLED)
+
+
+def make_shape(pt, text):
+    if not text.startswith('SCRAMBLED:'):
+        return pt.parse(text)
+    d = pt.parse(text[len('SCRAMBLED:'):]).dict()
+    d['internal_mods'] = dict(reversed(list(d['internal_mods'].items())))
+    d['intervals'] = list(reversed(d['intervals']))
+    return pt.create_annotation(**d)
 
 
 def kind_of(x):
@@ -442,6 +455,16 @@ def other_objects(pt):
           ('comp-named-mod', lambda n: P.comp(f'PEPS[{n}]K')),
           ('mass-named-static', lambda n: P.mass(f'<[{n}]@S>PEPSK', monoisotopic=False)),
           ('parse-serialize', lambda n: P.parse(f'[{n}]?PEPS[{n}]^2K').serialize())]),
+        ('xlmod-string', lambda: 'XLMOD:01002',
+         [('mod_mass-avg-p1', lambda x: P.mod_mass(x, False, 1)), ('mod_mass-avg', lambda x: P.mod_mass(x, False)),
+          ('mod_mass-mono-p2', lambda x: P.mod_mass(x, True, 2)), ('mod_mass-mono', lambda x: P.mod_mass(x)),
+          ('mass-avg-p0', lambda x: P.mass(f'PEPTK[{x}]IDE', monoisotopic=False, precision=0)),
+          ('mass-avg', lambda x: P.mass(f'PEPTK[{x}]IDE', monoisotopic=False)),
+          ('mod_comp', lambda x: P.mod_comp(x))]),
+        ('psimod-string', lambda: 'MOD:00046',
+         [('mod_mass-avg-p1', lambda x: P.mod_mass(x, False, 1)), ('mod_mass-avg', lambda x: P.mod_mass(x, False)),
+          ('mod_mass-mono-p0', lambda x: P.mod_mass(x, True, 0)), ('mod_mass-mono', lambda x: P.mod_mass(x)),
+          ('mass-named', lambda x: P.mass(f'PEPS[{x}]K', precision=1)), ('mod_comp', lambda x: P.mod_comp(x))]),
         ('proforma-string', lambda: '<[Carbamidomethyl]@C><13C>[Acetyl]-PEC[Phospho]T(ID)[+15.995]EK/2[+2Na+]',
          [('parse', lambda t: P.parse(t)), ('mass-str', lambda t: P.mass(t)), ('comp-str', lambda t: P.comp(t)),
           ('get_mods-str', lambda t: P.get_mods(t)), ('pop_mods-str', lambda t: P.pop_mods(t)),
@@ -510,11 +533,11 @@ def run_history(ctx, st, make, calls, kind, shape_id):
 def run(ctx):
     st = State()
     pt = install(ctx, st)
-    shapes = SHAPES[:3] if ctx.quick() else SHAPES
+    shapes = SHAPES[:4] if ctx.quick() else SHAPES
     calls = ann_calls(pt)
     k = 0
     for si, text in enumerate(shapes):
-        make = (lambda t=text: pt.parse(t))
+        make = (lambda t=text: make_shape(pt, t))
         for a in calls:
             k += 1
             if ctx.mine(k):
@@ -533,7 +556,7 @@ def run(ctx):
     for _ in range(ctx.n(4000, 200000)):
         si = rng.randrange(len(SHAPES))
         combo = [rng.choice(calls) for _ in range(3)]
-        run_history(ctx, st, (lambda t=SHAPES[si]: pt.parse(t)), combo, 'annotation', si)
+        run_history(ctx, st, (lambda t=SHAPES[si]: make_shape(pt, t)), combo, 'annotation', si)
     ctx.extra['purity_contract_evaluations'] = st.purity_evals
     ctx.extra['catalogue_calls'] = len(calls) + sum(len(c) for _k, _m, c in other_objects(pt)) if ctx.shard == 0 else 0
 
@@ -544,7 +567,7 @@ def replay(ctx, case):
     if case['kind'] == 'annotation':
         table = dict(ann_calls(pt))
         text = SHAPES[case['shape']]
-        run_history(ctx, st, (lambda: pt.parse(text)), [(l, table[l]) for l in case['history']], 'annotation',
+        run_history(ctx, st, (lambda: make_shape(pt, text)), [(l, table[l]) for l in case['history']], 'annotation',
                     case['shape'])
     else:
         for kind, make, ocalls in other_objects(pt):
